@@ -302,8 +302,9 @@ j_nonempty = z3.Function('j_nonempty', JV, z3.BoolSort())
 
 
 def dict_nonempty(v):
-    # a symbolic dict is (dom, map, size) - size is an Int term kept in sync by the engine
-    return v.t[2] > 0
+    # a symbolic dict is (dom, map); its size is the uninterpreted cardinality of dom
+    from . import lib
+    return lib.card(v.t[0]) > 0
 
 
 def same_sort_merge(c, a, b):
